@@ -156,6 +156,8 @@ pub mod opt {
     pub const DATA_TERM: u8 = 9;
     pub const DISPOSE_OTHER0: u8 = 10; // +q
     pub const INNER0: u8 = 16; // +inner
+    pub const PULL_OTHER0: u8 = 40; // +q
+    pub const SUBSCRIBE_NEXT: u8 = 48;
     pub const OK: u8 = 32;
     pub const FAIL_SPAWN: u8 = 33;
     pub const FAIL_CLOSED: u8 = 34;
@@ -173,6 +175,8 @@ pub mod opt {
             DATA_TERM => "Data+Terminate".into(),
             10..=15 => format!("dispose-probe{}", c - 10),
             16..=31 => format!("inner{}", c - 16),
+            40..=47 => format!("pull-on-probe{}", c - 40),
+            SUBSCRIBE_NEXT => "subscribe-next-probe".into(),
             OK => "ok".into(),
             FAIL_SPAWN => "fail-Spawn".into(),
             FAIL_CLOSED => "fail-Closed".into(),
@@ -273,6 +277,8 @@ pub struct Cfg {
     pub probe_err: bool,
     pub max_probes: u8,
     pub cross_dispose: bool,
+    /// probe handlers may pull on / subscribe another probe (C13: nested overlap of subscriptions)
+    pub cross_act: bool,
     /// puppet may fail (emit Error)
     pub puppet_err: bool,
     /// spawn failure alternatives offered by the mock nursery
@@ -301,6 +307,7 @@ impl Default for Cfg {
             probe_err: true,
             max_probes: 1,
             cross_dispose: false,
+            cross_act: false,
             puppet_err: true,
             spawn_fail: false,
             no_nested_emit: false,
@@ -366,6 +373,8 @@ pub struct Exec {
     /// guided (scripted by identity) replay: C13 solo runs
     pub guide: Option<std::collections::VecDeque<GuideRec>>,
     pub guide_mismatch: Option<String>,
+    /// a cross-subscription action (C13) is in progress
+    pub cross_depth: u32,
     /// threaded worlds: recording thread of each trace event (parallel to `trace`)
     pub tids: Vec<u8>,
 }
@@ -396,6 +405,7 @@ impl Exec {
             tap_subs: Vec::new(),
             guide: None,
             guide_mismatch: None,
+            cross_depth: 0,
             tids: Vec::new(),
         }
     }
